@@ -86,6 +86,19 @@ pub fn workload(tier: Tier) -> Vec<Work> {
         }
         o += stride;
     }
+    // E6: `.stringz` escape handling: every sequence of up to 3 (thorough 4) raw pieces over
+    // escaped backslash, each documented escape, an unknown escape, and the letters that follow a
+    // backslash in escapes (so that `\\n` = backslash + 'n' is distinguished from `\n`)
+    let pieces = ["\\\\", "\\n", "\\t", "\\r", "\\\"", "\\q", "n", "t", "r", "a", " "];
+    for len in 1..=tier.pick(3, 4) {
+        for idx in 0..crate::util::pow(pieces.len(), len) {
+            let raw: String = crate::util::seq(idx, pieces.len(), len).iter().map(|i| pieces[*i]).collect();
+            let mut prog = Program::default();
+            prog.push(Some("s"), Stmt::Stringz(raw));
+            prog.push(None, Stmt::Fill(Lit::hex(0xBEEF)));
+            w.push(Work { space: "E6/stringz-escapes", prog, stack: false, layout: Layout::PLAIN });
+        }
+    }
     // E5: layout product over the seeds
     let lays = layouts();
     for (prog, stack) in seeds() {
